@@ -12,7 +12,7 @@ EXTENDS Term, TraceLib
 VARIABLES l, cs, st
 vars == <<l, cs, st>>
 
-NoCase == [emu |-> "none", resized |-> FALSE, dead |-> FALSE, modelled |-> FALSE]
+NoCase == [emu |-> "none", resized |-> FALSE, dead |-> FALSE, modelled |-> FALSE, nl |-> 0]
 Init == l = 1 /\ cs = NoCase /\ st = InitSt(1, 1, TRUE, 0, FALSE) /\ InitRegs
 
 FixedGrid(emu) == emu = "viewdata" \/ emu = "mode7"
@@ -36,7 +36,7 @@ Next ==
   /\ LET e == Rec[l] IN
      CASE e.ev = "reset" ->
             /\ Bump(4)
-            /\ cs' = [emu |-> e.emu, resized |-> FALSE, dead |-> FALSE, modelled |-> Modelled(e.emu) /\ (~Has(e, "model") \/ e.model = 1)]
+            /\ cs' = [emu |-> e.emu, resized |-> FALSE, dead |-> FALSE, modelled |-> Modelled(e.emu) /\ (~Has(e, "model") \/ e.model = 1), nl |-> IF Has(e, "nl") THEN e.nl ELSE 0]
             /\ st' = InitStE(e.emu, e.w, e.h, e.alloc = 1, IF e.emu = "ansi" THEN e.music ELSE 0, e.emu = "ansi" /\ e.bs = 1)
        [] e.ev = "ch" ->
             /\ Bump(3)
@@ -50,11 +50,14 @@ Next ==
                   ELSE TRUE
                /\ IF Has(e, "rows") THEN Bump(6) /\ Check(RowsScalar(e), "C10", "CellsScalar", l, [emu |-> cs.emu, c |-> e.c]) ELSE TRUE
                /\ Check(~Has(e, "us") \/ e.us <= 5000000, "C03", "StepTime", l, [emu |-> cs.emu, c |-> e.c])
+               \* one character grows the row table by at most a screenful plus one macro expansion (C03: memory is bounded by
+               \* the input length and the screen, not by numbers in the input)
+               /\ Check(~Has(e, "nl") \/ e.nl - cs.nl <= e.th + 33000, "C03", "Growth", l, [emu |-> cs.emu, c |-> e.c, nl |-> IF Has(e, "nl") THEN e.nl ELSE 0, before |-> cs.nl])
                \* ---- model layer ------------------------------------------------
                /\ IF cs.modelled /\ e.r # "panic"
                   THEN WithExp(Step(st, e.c), e)
                   ELSE st' = st
-               /\ cs' = [cs EXCEPT !.resized = resizedNow, !.dead = (e.r = "panic")]
+               /\ cs' = [cs EXCEPT !.resized = resizedNow, !.dead = (e.r = "panic"), !.nl = IF Has(e, "nl") THEN e.nl ELSE cs.nl]
        [] e.ev = "crash" ->
             /\ Bump(8)
             /\ Check(e.kind # "abort", "C01", "Abort", l, [emu |-> e.emu, msg |-> e.msg])
